@@ -283,12 +283,13 @@ Qed.
 Lemma sound_example :
   exists sx sy, crop_slices RO true true unit4 (1, 1, 2, 2) = Slices sx sy /\ sx = mk_slice 0 3 /\ sy = mk_slice 0 4.
 Proof.
-  rewrite crop_slices_cases, bounds_to_arr_R; cbn.
+  rewrite crop_slices_cases, bounds_to_arr_R. cbn [negb fst snd].
   destruct (all_outside RO unit4 _ _) eqn:E.
-  - exfalso. apply all_outside_R in E. cbn in E. rewrite !unit4_arr_x, !unit4_arr_y in E.
-    unfold outside_axis in E; cbn in E. lra.
+  - exfalso. apply all_outside_R in E. unfold outside_axis in E. cbn [fst snd] in E.
+    rewrite !unit4_arr_x, !unit4_arr_y in E.
+    replace (IZR (width unit4)) with 4 in E by reflexivity. replace (IZR (height unit4)) with 4 in E by reflexivity. lra.
   - eexists _, _. split; [reflexivity|].
-    rewrite !raw_slice_R, !expand_eq; cbn. rewrite !unit4_arr_x, !unit4_arr_y.
+    rewrite !raw_slice_R, !expand_eq. cbn [fst snd sstart sstop]. rewrite !unit4_arr_x, !unit4_arr_y.
     replace (Rmin (1 - /2) (2 - /2)) with (/2) by (unfold Rmin; destruct (Rle_dec _ _); lra).
     replace (Rmax (1 - /2) (2 - /2)) with (3 * /2) by (unfold Rmax; destruct (Rle_dec _ _); lra).
     replace (Rmin (4 - 1 - /2) (4 - 2 - /2)) with (3 * /2) by (unfold Rmin; destruct (Rle_dec _ _); lra).
@@ -300,3 +301,45 @@ Proof.
     assert (Zceil (5 * /2) = 3%Z) as -> by (apply Zceil_imp; simpl; lra).
     split; reflexivity.
 Qed.
+
+(* the property at the level of a whole target: H_poly = the bbox contains the source-CRS image of every
+   target pixel centre (shapely + sampling density: not provable here); the validity and intersection bits
+   are shapely's (H_valid, H_inter: taken as true) *)
+Definition in_bbox (b : R * R * R * R) (p : R * R) : Prop :=
+  let '(minx, miny, maxx, maxy) := b in minx <= fst p <= maxx /\ miny <= snd p <= maxy.
+Definition H_poly (b : R * R * R * R) (pts : list (R * R)) : Prop := Forall (in_bbox b) pts.
+Definition on_grid (a : area R) (p : R * R) : Prop :=
+  0 <= arr_of_proj_x RO a (fst p) < IZR (width a) /\ 0 <= arr_of_proj_y RO a (snd p) < IZR (height a).
+Definition near_grid (a : area R) (p : R * R) : Prop :=
+  -1 < arr_of_proj_x RO a (fst p) < IZR (width a) /\ -1 < arr_of_proj_y RO a (snd p) < IZR (height a).
+Definition pixel_kept (a : area R) (sx sy : pslice) (p : R * R) : Prop :=
+  (forall k, (Zfloor (arr_of_proj_x RO a (fst p)) <= k <= Zceil (arr_of_proj_x RO a (fst p)))%Z -> in_slice sx (clip (width a) k)) /\
+  (forall k, (Zfloor (arr_of_proj_y RO a (snd p)) <= k <= Zceil (arr_of_proj_y RO a (snd p)))%Z -> in_slice sy (clip (height a) k)).
+
+Lemma crop_never_discards_if a b pts : wf_area a -> H_poly b pts ->
+  (* no false "non-overlapping": one target pixel centre on the grid of pixel centres is enough *)
+  (Exists (on_grid a) pts -> exists sx sy, crop_slices RO true true a b = Slices sx sy) /\
+  (* whenever slices are returned, every target pixel whose centre lies on (or within a pixel of) the source grid
+     keeps its containing, nearest and lower-neighbour source pixels *)
+  (forall sx sy, crop_slices RO true true a b = Slices sx sy ->
+     Forall (fun p => near_grid a p -> pixel_kept a sx sy p) pts).
+Proof.
+  intros Hwf HP. destruct b as [[[minx miny] maxx] maxy]. split.
+  - intros Hex. apply Exists_exists in Hex. destruct Hex as ([px py] & Hin & [Hc Hr]).
+    unfold H_poly in HP. rewrite Forall_forall in HP. specialize (HP _ Hin). cbn in HP. destruct HP as [Hx Hy].
+    destruct (bounds_to_slices_sound a minx miny maxx maxy px py Hwf Hx Hy Hc Hr) as (sx & sy & E & _).
+    exists sx, sy. exact E.
+  - intros sx sy E. unfold H_poly in HP. rewrite Forall_forall in *. intros [px py] Hin [Hc Hr].
+    specialize (HP _ Hin). cbn in HP. destruct HP as [Hx Hy].
+    destruct (sound_if_slices a minx miny maxx maxy px py sx sy Hwf Hx Hy Hc Hr E) as (A & B & _).
+    split; assumption.
+Qed.
+Lemma H_poly_example : H_poly (1, 1, 2, 2) [(3 * /2, 3 * /2); (1, 2)] /\ on_grid unit4 (3 * /2, 3 * /2).
+Proof.
+  split.
+  - repeat constructor; cbn; lra.
+  - unfold on_grid. cbn [fst snd]. rewrite unit4_arr_x, unit4_arr_y.
+    replace (IZR (width unit4)) with 4 by reflexivity. replace (IZR (height unit4)) with 4 by reflexivity. lra.
+Qed.
+Lemma roundings_between c : (Zfloor c <= Zfloor (c + /2) <= Zceil c)%Z /\ (Zfloor c <= ZnearestE c <= Zceil c)%Z.
+Proof. split; [apply round_half_up_between | apply round_half_even_between]. Qed.
